@@ -720,14 +720,14 @@ Proof.
   destruct (base_stable n nd f E Hn) as [_ <-]. exact H.
 Qed.
 
-Lemma step_of : forall n nd, nth_error s n = Some nd -> exists f,
+Lemma step_of : forall n nd, nth_error s n = Some nd -> exists f, rank n < S f /\
   is_writable c s F st n =
     writable_step c s (is_writable c s f st) (is_readable c s f st) (val s f st) (bool_from_id s f st) nd /\
   is_readable c s F st n =
     readable_step c s (is_readable c s f st) (val s f st) (bool_from_id s f st) nd.
 Proof.
   intros n nd E. pose proof (HF n) as Hn. revert Hn. generalize F as fuel.
-  intros [|f] Hn; [lia|]. exists f.
+  intros [|f] Hn; [lia|]. exists f. split; [exact Hn|].
   cbn [is_writable is_readable]. rewrite E. auto.
 Qed.
 
@@ -796,7 +796,7 @@ Proof.
   intros c s rank F st n nd Hac HF E [I|[K M]] H.
   - apply (writable_true_base s rank Hac c F HF st n nd E) in H.
     unfold base_w in H. rewrite !andl_true in H. destruct H as [_ H]. rewrite I in H. discriminate.
-  - destruct (step_of s rank c F HF st n nd E) as (f & W & _). rewrite W in H.
+  - destruct (step_of s rank c F HF st n nd E) as (f & _ & W & _). rewrite W in H.
     unfold writable_step in H. cbv zeta in H.
     destruct (nkind nd); simpl in K; try contradiction; rewrite andl_true, M in H;
       destruct H as [_ H]; discriminate.
@@ -810,7 +810,7 @@ Proof.
   intros c s rank F st n nd Hac HF E [I|[K M]] H.
   - apply (readable_true_base s rank Hac c F HF st n nd E) in H.
     unfold base_r in H. rewrite !andl_true in H. destruct H as [_ H]. rewrite I in H. discriminate.
-  - destruct (step_of s rank c F HF st n nd E) as (f & _ & R). rewrite R in H.
+  - destruct (step_of s rank c F HF st n nd E) as (f & _ & _ & R). rewrite R in H.
     unfold readable_step in H. cbv zeta in H.
     destruct (nkind nd); simpl in K; try contradiction; rewrite andl_true, M in H;
       destruct H as [_ H]; discriminate.
@@ -824,11 +824,26 @@ Theorem const_not_writable : forall c s rank F st n nd, Acyclic s rank -> (foral
   is_writable c s F st n <> Ok true.
 Proof.
   intros c s rank F st n nd Hac HF E C H.
-  destruct (step_of s rank c F HF st n nd E) as (f & W & _). rewrite W in H. clear W.
+  destruct (step_of s rank c F HF st n nd E) as (f & _ & W & _). rewrite W in H. clear W.
   unfold writable_step in H. cbv zeta in H.
   destruct C as [[VK [v V]]|[K|K]]; [|rewrite K in H; discriminate|rewrite K in H; discriminate].
   destruct (nkind nd) eqn:K; simpl in VK; try contradiction; rewrite andl_true, V in H; simpl in H;
     destruct H as [_ H]; discriminate.
+Qed.
+
+(* the specification on its own already says what the corollaries say *)
+Theorem spec_sanity : forall s ival bval n nd, nth_error s n = Some nd ->
+  (Writable s ival bval n -> BaseW s ival bval nd) /\
+  (Readable s ival bval n -> BaseR s ival bval nd) /\
+  (Writable s ival bval n -> nkind nd <> KIntSwissKnife /\ nkind nd <> KSwissKnife) /\
+  (Writable s ival bval n -> RegisterKind (nkind nd) -> regmode nd <> RO) /\
+  (Readable s ival bval n -> RegisterKind (nkind nd) -> regmode nd <> WO).
+Proof.
+  intros s ival bval n nd E. split; [|split; [|split; [|split]]]; intros H; inversion H; subst;
+    match goal with X : nth_error s n = Some ?nd' |- _ => rewrite E in X; injection X as <- end;
+    try assumption;
+    try (split; intros K; rewrite K in *; simpl in *; intuition discriminate);
+    try (intros R; destruct (nkind nd); simpl in *; intuition discriminate).
 Qed.
 
 (* ================================================================== the verdict follows the state *)
@@ -999,6 +1014,25 @@ Example tracks_example :
   is_writable fixed_cfg lk_store 3 (upd (upd st0 0 0 (Ok 1%Z)) 0 0 (Ok 0%Z)) 1 = Ok true /\
   Blocks lk_store 3 (upd st0 0 0 (Ok 1%Z)) (N KInteger RW RO None None (Some 0) (VOne (ISlot 0)) 0 [] 1 0).
 Proof. repeat split; try (vm_compute; reflexivity). left. exists 0. split; vm_compute; reflexivity. Qed.
+
+(* the selected entry of a pIndex that is a literal is no target either *)
+Theorem const_entry_not_writable : forall c s rank F st n nd idx es d i v,
+  Acyclic s rank -> (forall m, rank m < F) ->
+  nth_error s n = Some nd -> nkind nd = KInteger \/ nkind nd = KFloat ->
+  nvalue nd = VPIndex idx es d -> val s F st idx = Ok i -> select i es d = IImm v ->
+  is_writable c s F st n <> Ok true.
+Proof.
+  intros c s rank F st n nd idx es d i v Hac HF E K V I S H.
+  destruct (step_of s rank c F HF st n nd E) as (f & Hn & W & _). rewrite W in H. clear W.
+  assert (Hi : val s f st idx = Ok i).
+  { rewrite <- I. apply (val_stable s rank Hac); [|apply HF].
+    assert (Hin : In idx (refs nd)) by (apply refs_tail; destruct K as [K|K]; rewrite K, V; simpl; auto).
+    pose proof (Hac _ _ _ E Hin). lia. }
+  unfold writable_step in H. cbv zeta in H.
+  destruct K as [K|K]; rewrite K, V, andl_true in H; destruct H as [_ H];
+    (destruct (is_iinteger (kind_of s idx)); [|discriminate]);
+    rewrite andl_true, Hi in H; simpl in H; rewrite S in H; destruct H as [_ H]; discriminate.
+Qed.
 
 (* ================================================================== the pinned code *)
 Definition rank2 (n : nat) : nat := Nat.min n 2.
